@@ -44,7 +44,7 @@ def tasks(tier, seed):
                     continue
                 ts.append({'harness': 'py/' + law, 'law': law, 'engine': 'py', 'r': r, 'c': c, 'tier': tier, 'seed': seed,
                            'est': r * c * (3 if law in ('symmetry', 'psi') else 1)})
-            if r * c <= (6 if tier == 'quick' else 9):
+            if r * c <= (4 if tier == 'quick' else 9):
                 ts.append({'harness': 'py/max_step', 'law': 'max_step', 'engine': 'py', 'r': r, 'c': c, 'tier': tier,
                            'seed': seed, 'est': 4 ** (r * c) // 8 + 1})
             if r <= nc and c <= nc:
@@ -159,8 +159,10 @@ def run_task(cfg):
                         m2.s1, m2.s2 = mode.s2, mode.s1
                     extras = [None]
                     if (w in (None, 1)) and psi in (None, 1, (0, 1, 1, 0)) and \
-                            ((eng == 'c' and r * c <= 6) or (eng == 'py' and r * c <= 4)):
+                            ((eng == 'c' and r * c <= 3) or (eng == 'py' and r * c <= 2)):
                         extras += ['step', 'md']
+                    elif eng == 'c' and ndim == 1 and r * c == 4 and w is None and psi == 1 and not pen:
+                        extras += ['step']
                     for extra in extras:
                         bx = dict(base)
                         sy = dict(syms)
